@@ -11,8 +11,9 @@ import time
 from typing import Any, Dict, List
 
 HERE = os.path.dirname(os.path.dirname(os.path.abspath(__file__)))
-EVIDENCE_DIR = os.path.join(HERE, "evidence")
-REPLAY_DIR = os.path.join(HERE, "replays")
+_OUT = os.environ.get("VERIF_OUT")  # scratch output root for runs against a scratch copy of the repository (EQL_SRC)
+EVIDENCE_DIR = os.path.join(_OUT, "evidence") if _OUT else os.path.join(HERE, "evidence")
+REPLAY_DIR = os.path.join(_OUT, "replays") if _OUT else os.path.join(HERE, "replays")
 FINDINGS_FILE = os.path.join(HERE, "known_findings.json")
 NPROC = int(os.environ.get("VERIF_NPROC", "16"))
 
